@@ -559,7 +559,7 @@ def conclude(prop, tier, seed, root, stages, t_start, evid_path):
             # process-level outcomes
             kind, what = classify_log(r["log"])
             if r["timed_out"]:
-                if prop in ("C14", "C10") and r["progress"]:
+                if prop in ("C14", "C10", "C15") and r["progress"]:
                     viol.append(dict(prop=prop, key="hang", msg="no progress within the watchdog while executing: " + r["progress"][:300],
                                      idx=progress_idx(r["progress"]), seed=seed, tier=tier, small=small, case=r["progress"][:300], mode="?", picks="", stage=name))
                 else:
